@@ -122,7 +122,20 @@ def replay_l82(cfg, m):
 
 R.add('L8.2', l82, [{}], replay=replay_l82, desc='diff / newer_than / < / > for all a, |d| <= 32767',
       expect=['diff recovers the offset', '< (reverse)'])
-R.add('L8.3t', l83_type, [{}], desc='TypeError for non-SeqNum operand',
+def replay_l83t(cfg, m):
+    c = real('mpgameserver.connection')
+    A = c.SeqNum(m.get('a', 1))
+    out = []
+    for op in ('__lt__', '__gt__'):
+        try:
+            getattr(A, op)(int(m.get('b', 1)))
+            out.append(op)
+        except TypeError:
+            pass
+    return bool(out), 'SeqNum(%d) %s %d did not raise TypeError' % (m.get('a', 1), '/'.join(out), m.get('b', 1))
+
+
+R.add('L8.3t', l83_type, [{}], replay=replay_l83t, desc='TypeError for non-SeqNum operand',
       expect=['ordering against a plain int raises TypeError'])
 
 
